@@ -34,7 +34,7 @@ The wrapper pattern (e.g. couchbase/doc_op.go CreateDocument l.21-47):
  site                               | ctx deadline source                                    | callback stores                                   | result chan(s)            | read after Wait==nil | cb err propagated
  -----------------------------------+--------------------------------------------------------+---------------------------------------------------+---------------------------+----------------------+------------------
  client.go:Ping                     | WithTimeout(s.config.HealthCheck.Timeout)              | pingResult (captured var, before Resolve); err→errorCh | errorCh cap 1         | yes                  | yes
- client.go:GetVBucketSeqNos         | WithTimeout(time.Second*60), one per node×collection   | seqNos map (captured, before Resolve); err DROPPED | none                      | n/a (returns Wait)   | NO  (F7)
+ client.go:GetVBucketSeqNos         | WithTimeout(time.Second*60), one per node×collection   | seqNos map (captured, before Resolve); err via ch   | make(chan error, 1)       | after Wait           | yes (F7 fixed in c9cc595)
  client.go:GetFailOverLogs          | WithTimeout(time.Second*60)                            | failOverLogs (captured, before Resolve); err→ch   | ch cap 1                  | yes                  | yes
  client.go:openStreamWithRollback   | WithTimeout(time.Second*60)                            | observer.SetVbUUID/SetCatchup (err==nil); err→ch  | ch cap 1                  | yes                  | yes
  client.go:OpenStream               | WithTimeout(time.Minute)                               | observer.SetVbUUID (err==nil); err→ch             | ch cap 1                  | yes                  | yes
@@ -325,7 +325,7 @@ def wrappers : List Wrapper := [
     store := .capturedAndErrChan, buffered := some true, readsAfterWait := some true, propagatesErr := true },
   { site := "client.go:GetVBucketSeqNos", deadline := .const "time.Second*60",
     deadlineExpr := "time.Second*60", gocbDeadline := "",
-    store := .capturedOnly, buffered := none, readsAfterWait := none, propagatesErr := false },
+    store := .capturedAndErrChan, buffered := some true, readsAfterWait := some true, propagatesErr := true },
   { site := "client.go:GetFailOverLogs", deadline := .const "time.Second*60",
     deadlineExpr := "time.Second*60", gocbDeadline := "",
     store := .capturedAndErrChan, buffered := some true, readsAfterWait := some true, propagatesErr := true },
